@@ -1316,11 +1316,19 @@ func (e *Engine) execFrom(fr *Frame, st *State, b *ssa.BasicBlock, idx int, k re
 			return
 		case *ssa.Return:
 			var rs []*Val
-			for _, r := range in.Results {
+			for ri, r := range in.Results {
 				rv := e.operand(fr, st, r)
 				st.markEscaped(rv.T)
 				if rv.Borrowed != "" && fr.top {
-					e.borrowCheck(fr, st, rv, "returned", in.Pos())
+					// handing a borrowed slice on is fine when this function's own contract says that its result is borrowed
+					// (`opt borrowed=<result>`): its callers are then held to the same rule
+					passOn := false
+					if c := e.contractFor(fr.fn); c != nil && c.Opts["borrowed"] != "" && ri < len(c.Results) && c.Results[ri] == c.Opts["borrowed"] {
+						passOn = true
+					}
+					if !passOn {
+						e.borrowCheck(fr, st, rv, "returned", in.Pos())
+					}
 				}
 				rs = append(rs, rv)
 			}
